@@ -4,8 +4,8 @@
     [orb], [fst], [snd] inlined).  Numbers, strings and maps stay Coq
     datatypes.  Extraction is used for the correspondence check only, never
     to establish a theorem. *)
-From DD Require Import Driver2.
+From DD Require Import Driver3.
 Require Extraction.
 Require Import ExtrOcamlBasic.
 Extraction Language OCaml.
-Extraction "model.ml" step2 digest world_empty world_get.
+Extraction "model.ml" step2 digest world_empty world_get astep adigest aworld_empty aworld_get.
